@@ -247,6 +247,10 @@ class ChangeRecorder:
         for file in self._source_files.values():
             file.virtual_write()
 
+    def discard_changes(self):
+        for file in self._source_files.values():
+            file.replacements = []
+
     def dump(self):  # pragma: no cover
         for file in self._source_files.values():
             print("file:", file.filename)
